@@ -241,10 +241,80 @@ Definition accept (use : bool) (x : uid) (evs : list ev) : res (bool * list ev) 
 
 Definition push (d : bool) (prod : list uid) (x : uid) : list uid := if d then prod ++ [x] else prod.
 
-(* _genpop(n, pickfrom, acceptfunc): `pick` is pickfrom reversed (pickfrom.pop() takes the last).
+Definition bind {A B} (r : res A) (f : A -> res B) : res B :=
+  match r with
+  | Ok a => f a
+  | Mismatch c => Mismatch c
+  | OutOfFuel => OutOfFuel
+  end.
+Definition guard (b : bool) (code : nat) : res unit := if b then Ok tt else Mismatch code.
+
+(* `if acceptfunc(len(aspirant)): producedpop.append(aspirant)` *)
+Definition accept_push (use : bool) (prod : list uid) (x : uid) (evs : list ev) : res (list uid * list ev) :=
+  bind (accept use x evs) (fun '(d, evs') => Ok (push d prod x, evs')).
+
+(* the acceptance part of one generating iteration of _genpop: the first aspirant is submitted
+   unconditionally, the second one (crossover only) under `if len(producedpop) < n and acceptfunc(...)` *)
+Definition accept_cands (use : bool) (n : nat) (prod : list uid) (cands : list uid) (evs : list ev)
+  : res (list uid * list ev) :=
+  match cands with
+  | [] => Ok (prod, evs)
+  | x :: rest =>
+      bind (accept_push use prod x evs) (fun '(prod1, evs1) =>
+        match rest with
+        | [] => Ok (prod1, evs1)
+        | y :: _ => if (length prod1 <? n)%nat then accept_push use prod1 y evs1 else Ok (prod1, evs1)
+        end)
+  end.
+
+(* the generating part of one iteration of _genpop's while (pickfrom empty): returns the store and
+   the aspirants (two after a crossover, else one).
    Guards turned into Mismatch: select returns elements of `population` of the requested count,
    clone returns a new object, mate / mutate return their argument objects or new objects, mate's
    two results are distinct objects. *)
+Definition candidates (pop : list uid) (cxpb mutpb : Q) (st : store) (evs : list ev)
+  : res (store * list uid * list ev) :=
+  match evs with
+  | EDraw opRandom :: evs1 =>
+    if Qltb opRandom cxpb then
+      (* aspirant1, aspirant2 = toolbox.mate( *map(toolbox.clone, toolbox.select(population, 2)))
+         del aspirant1.fitness.values, aspirant2.fitness.values *)
+      match evs1 with
+      | ESelect arg k idxs :: EClone s1 c1 :: EClone s2 c2 :: EMate i1 i2 o1 o2 :: evs2 =>
+        bind (guard (uid_list_eqb arg pop && Nat.eqb k 2 && Nat.eqb (length idxs) 2
+                     && forallb (fun i => i <? length pop)%nat idxs
+                     && uid_list_eqb (select_by pop idxs) [s1; s2]
+                     && Nat.eqb i1 c1 && Nat.eqb i2 c2) 30) (fun _ =>
+        bind (clone st s1 c1) (fun st1 =>
+        bind (clone st1 s2 c2) (fun st2 =>
+        let ok_out (o : uid * G) := Nat.eqb (fst o) c1 || Nat.eqb (fst o) c2 || is_fresh st2 (fst o) in
+        bind (guard (ok_out o1 && ok_out o2 && negb (Nat.eqb (fst o1) (fst o2))) 31) (fun _ =>
+        Ok (set_varied (set_varied st2 o1) o2, [fst o1; fst o2], evs2)))))
+      | _ => Mismatch 32
+      end
+    else
+      (* aspirant = toolbox.clone(toolbox.select(population, 1)[0]) *)
+      match evs1 with
+      | ESelect arg k idxs :: EClone s1 c1 :: evs2 =>
+        bind (guard (uid_list_eqb arg pop && Nat.eqb k 1 && Nat.eqb (length idxs) 1
+                     && forallb (fun i => i <? length pop)%nat idxs
+                     && uid_list_eqb (select_by pop idxs) [s1]) 40) (fun _ =>
+        bind (clone st s1 c1) (fun st1 =>
+        if Qltb (opRandom - cxpb) mutpb then
+          (* aspirant = toolbox.mutate(aspirant)[0]; del aspirant.fitness.values *)
+          match evs2 with
+          | EMutate i o :: evs3 =>
+            bind (guard (Nat.eqb i c1 && (Nat.eqb (fst o) c1 || is_fresh st1 (fst o))) 41) (fun _ =>
+            Ok (set_varied st1 o, [fst o], evs3))
+          | _ => Mismatch 42
+          end
+        else Ok (st1, [c1], evs2)))
+      | _ => Mismatch 43
+      end
+  | _ => Mismatch 50
+  end.
+
+(* _genpop(n, pickfrom, acceptfunc): `pick` is pickfrom reversed (pickfrom.pop() takes the last). *)
 Fixpoint genpop (fuel : nat) (pop : list uid) (cxpb mutpb : Q) (n : nat) (use : bool)
          (st : store) (prod pick : list uid) (evs : list ev)
   : res (store * list uid * list uid * list ev) :=
@@ -254,86 +324,12 @@ Fixpoint genpop (fuel : nat) (pop : list uid) (cxpb mutpb : Q) (n : nat) (use : 
   | S fuel' =>
     match pick with
     | aspirant :: pick' =>
-        match accept use aspirant evs with
-        | Ok (d, evs') => genpop fuel' pop cxpb mutpb n use st (push d prod aspirant) pick' evs'
-        | Mismatch c => Mismatch c
-        | OutOfFuel => OutOfFuel
-        end
+        bind (accept_push use prod aspirant evs) (fun '(prod1, evs1) =>
+        genpop fuel' pop cxpb mutpb n use st prod1 pick' evs1)
     | [] =>
-      match evs with
-      | EDraw opRandom :: evs1 =>
-        if Qltb opRandom cxpb then
-          (* aspirant1, aspirant2 = toolbox.mate( *map(toolbox.clone, toolbox.select(population, 2))) *)
-          match evs1 with
-          | ESelect arg k idxs :: EClone s1 c1 :: EClone s2 c2 :: EMate i1 i2 o1 o2 :: evs2 =>
-            if negb (uid_list_eqb arg pop && Nat.eqb k 2 && Nat.eqb (length idxs) 2
-                     && forallb (fun i => i <? length pop)%nat idxs
-                     && uid_list_eqb (select_by pop idxs) [s1; s2]
-                     && Nat.eqb i1 c1 && Nat.eqb i2 c2) then Mismatch 30 else
-            match clone st s1 c1 with
-            | Ok st1 =>
-              match clone st1 s2 c2 with
-              | Ok st2 =>
-                let ok_out (o : uid * G) := Nat.eqb (fst o) c1 || Nat.eqb (fst o) c2 || is_fresh st2 (fst o) in
-                if negb (ok_out o1 && ok_out o2 && negb (Nat.eqb (fst o1) (fst o2))) then Mismatch 31 else
-                (* del aspirant1.fitness.values, aspirant2.fitness.values *)
-                let st3 := set_varied (set_varied st2 o1) o2 in
-                match accept use (fst o1) evs2 with
-                | Ok (d1, evs3) =>
-                  let prod1 := push d1 prod (fst o1) in
-                  if (length prod1 <? n)%nat then
-                    match accept use (fst o2) evs3 with
-                    | Ok (d2, evs4) => genpop fuel' pop cxpb mutpb n use st3 (push d2 prod1 (fst o2)) [] evs4
-                    | Mismatch c => Mismatch c
-                    | OutOfFuel => OutOfFuel
-                    end
-                  else genpop fuel' pop cxpb mutpb n use st3 prod1 [] evs3
-                | Mismatch c => Mismatch c
-                | OutOfFuel => OutOfFuel
-                end
-              | Mismatch c => Mismatch c
-              | OutOfFuel => OutOfFuel
-              end
-            | Mismatch c => Mismatch c
-            | OutOfFuel => OutOfFuel
-            end
-          | _ => Mismatch 32
-          end
-        else
-          (* aspirant = toolbox.clone(toolbox.select(population, 1)[0]) *)
-          match evs1 with
-          | ESelect arg k idxs :: EClone s1 c1 :: evs2 =>
-            if negb (uid_list_eqb arg pop && Nat.eqb k 1 && Nat.eqb (length idxs) 1
-                     && forallb (fun i => i <? length pop)%nat idxs
-                     && uid_list_eqb (select_by pop idxs) [s1]) then Mismatch 40 else
-            match clone st s1 c1 with
-            | Ok st1 =>
-              if Qltb (opRandom - cxpb) mutpb then
-                (* aspirant = toolbox.mutate(aspirant)[0]; del aspirant.fitness.values *)
-                match evs2 with
-                | EMutate i o :: evs3 =>
-                  if negb (Nat.eqb i c1 && (Nat.eqb (fst o) c1 || is_fresh st1 (fst o))) then Mismatch 41 else
-                  let st2 := set_varied st1 o in
-                  match accept use (fst o) evs3 with
-                  | Ok (d, evs4) => genpop fuel' pop cxpb mutpb n use st2 (push d prod (fst o)) [] evs4
-                  | Mismatch c => Mismatch c
-                  | OutOfFuel => OutOfFuel
-                  end
-                | _ => Mismatch 42
-                end
-              else
-                match accept use c1 evs2 with
-                | Ok (d, evs3) => genpop fuel' pop cxpb mutpb n use st1 (push d prod c1) [] evs3
-                | Mismatch c => Mismatch c
-                | OutOfFuel => OutOfFuel
-                end
-            | Mismatch c => Mismatch c
-            | OutOfFuel => OutOfFuel
-            end
-          | _ => Mismatch 43
-          end
-      | _ => Mismatch 50
-      end
+        bind (candidates pop cxpb mutpb st evs) (fun '(st1, cands, evs1) =>
+        bind (accept_cands use n prod cands evs1) (fun '(prod1, evs2) =>
+        genpop fuel' pop cxpb mutpb n use st1 prod1 [] evs2))
     end
   end.
 
